@@ -213,10 +213,12 @@ package quickfix
 //@ iface Application.ToAdmin(recv, message, sessionID)
 //@   requires msgsafe(message)
 //@   ensures msgsafe(message)
+//@   ensures @seqkept old(fhas(message.Header.FieldMap, 34)) ==> fhas(message.Header.FieldMap, 34) && message.Header.tagLookup[34] == old(message.Header.tagLookup[34]) && fint(message.Header.FieldMap, 34) == old(fint(message.Header.FieldMap, 34))
 //@   modifies message.Header.tags, heap E.quickfix.Tag, message.Header.tagLookup[*], message.Body.tags, message.Body.tagLookup[*], message.Trailer.tags, message.Trailer.tagLookup[*], heap H.quickfix.TagValue.*, fresh E.uint8
 //@ iface Application.ToApp(recv, message, sessionID)
 //@   requires msgsafe(message)
 //@   ensures msgsafe(message)
+//@   ensures @seqkept old(fhas(message.Header.FieldMap, 34)) ==> fhas(message.Header.FieldMap, 34) && message.Header.tagLookup[34] == old(message.Header.tagLookup[34]) && fint(message.Header.FieldMap, 34) == old(fint(message.Header.FieldMap, 34))
 //@   modifies message.Header.tags, heap E.quickfix.Tag, message.Header.tagLookup[*], message.Body.tags, message.Body.tagLookup[*], message.Trailer.tags, message.Trailer.tagLookup[*], heap H.quickfix.TagValue.*, fresh E.uint8
 
 // ---- session well-formedness ---------------------------------------------------------------------------------
@@ -267,6 +269,8 @@ package quickfix
 //@   ensures @wf msgsafe(msg) && sessfull(s)
 //@   ensures @number err == nil && !s.sentReset ==> s.store.#S == wrap64(old(s.store.#S) + 1) && s.store.#T == old(s.store.#T)
 //@   ensures @noreset !old(s.sentReset) && s.sentReset ==> err != nil || (s.store.#S == 2 && s.store.#T == 1)
+//@   atcall build @stamp fhas(msg.Header.FieldMap, 34) && fint(msg.Header.FieldMap, 34) == seqNum
+//@   atcall persist @number arg1 == seqNum && seqNum == s.store.#S
 //@   ensures @state s.State == old(s.State) && s.toSend == old(s.toSend) && s.messageOut == old(s.messageOut)
 //@   ensures @target (s.store.#T == old(s.store.#T) && s.store.#R == old(s.store.#R)) || s.store.#R > old(s.store.#R)
 //@   modifies s.sentReset, s.store.#S, s.store.#T, s.store.#R, msg.Header.tags, heap E.quickfix.Tag, msg.Header.tagLookup[*], msg.Body.tags, msg.Body.tagLookup[*], msg.Trailer.tags, msg.Trailer.tagLookup[*], heap H.quickfix.TagValue.*, fresh E.uint8, fresh H.quickfix.FIXUTCTimestamp.*, fresh H.time.Time.*, fresh H.quickfix.messageRejectError.*, fresh P.quickfix.Tag, fresh P.quickfix.FIXInt, fresh P.quickfix.FIXBoolean, fresh H.bytes.Buffer.*
@@ -584,6 +588,7 @@ package quickfix
 //@   ensures @nodelivery session.application.#n == old(session.application.#n)
 //@   ensures @target (session.store.#T == old(session.store.#T) && session.store.#R == old(session.store.#R)) || session.store.#R > old(session.store.#R)
 //@   ensures @nodup (!fhas(msg.Header.FieldMap, 43)) ==> result is logoutState || result is latentState
+//@   ensures @dupno fhas(msg.Header.FieldMap, 43) && onebyte(fval(msg.Header.FieldMap, 43), 78) ==> result is logoutState || result is latentState
 
 // common shape of a handler's result: at most one application message accepted, and then the expected number moved on
 // by exactly one; the expected number never moves backwards unless the store was reset
@@ -605,6 +610,7 @@ package quickfix
 //@   requires @msg msgok(msg)
 //@   requires @admin isadminmsg(msg)
 //@   atcall SetNextTargetMsgSeqNum @forward arg1 > session.store.#T
+//@   atcall doReject @lower fhas(msg.Body.FieldMap, 36) && fint(msg.Body.FieldMap, 36) < session.store.#T && session.store.#T == old(session.store.#T) && session.store.#R == old(session.store.#R)
 //@   ensures @next result != nil && stok(result)
 //@   ensures @sess sessfull(session) && session.State == old(session.State)
 //@   ensures @nodelivery session.application.#n == old(session.application.#n)
@@ -815,3 +821,16 @@ package quickfix
 //@   requires sm != nil && (sm.notifyOnInSessionTime != nil ==> !closed(sm.notifyOnInSessionTime))
 //@   ensures sm.notifyOnInSessionTime == nil
 //@   modifies sm.notifyOnInSessionTime, heap Gh.chan.closed
+
+// CheckSessionTime (session-window bookkeeping: may shut the state down, reset the store, change state) is outside
+// what is verified: stated, unverified contract (listed as an assumption)
+//@ func (sm *stateMachine) CheckSessionTime [C08]
+//@   trusted
+//@   requires sessfull(session)
+//@   ensures sessfull(session)
+
+// SendAppMessages: the queue goes to the wire only in a logged-on state; otherwise it is dropped from the wire queue
+//@ func (sm *stateMachine) SendAppMessages [C02,C08]
+//@   requires sessfull(session)
+//@   atcall sendQueued @loggedon !stnotlogged(session.State)
+//@   ensures sessfull(session)
